@@ -27,7 +27,7 @@ type gitRepo struct {
 	env []string
 }
 
-func newGitRepo(tree map[string]gen.File) (*gitRepo, error) {
+func newGitRepo(tree map[string]gen.File, initial wtree) (*gitRepo, error) {
 	top, err := os.MkdirTemp("/var/tmp", "c28-git-")
 	if err != nil {
 		return nil, err
@@ -61,6 +61,12 @@ func newGitRepo(tree map[string]gen.File) (*gitRepo, error) {
 			ps = append(ps, prim{op: "symlink", path: p, target: f.Data})
 		} else {
 			ps = append(ps, prim{op: "write", path: p, data: f.Data, exec: f.Exec})
+		}
+	}
+	// directories the generator left empty
+	for _, p := range sortedKeys(initial) {
+		if initial[p].kind == 'd' {
+			ps = append(ps, prim{op: "mkdir", path: p})
 		}
 	}
 	if err := g.apply(ps); err != nil {
